@@ -21,9 +21,10 @@ Range(f) == {f[i] : i \in DOMAIN f}
 VARIABLES node, S
 vars == <<node, S>>
 \* DEVIATION of the code (flagged): downgrade_to_upgradable waits for the upgradable slot, which a thread queued in
-\* lock_upgradable already owns while it waits for the exclusive holder: both block for ever
+\* lock_upgradable already owns while it waits for the exclusive holder (or that an overtaken upgrader still owns): both
+\* block for ever
 StuckDowngrade(s, t) == /\ s.st[t+1] \in {"called"} /\ s.pend[t+1].k = "down_to_up"
-                        /\ \E u \in 0..(s.n - 1) : u # t /\ s.st[u+1] = "called" /\ s.pend[u+1].k \in {"up_lock"} /\ s.pend[u+1].o = s.pend[t+1].o
+                        /\ \E u \in 0..(s.n - 1) : u # t /\ s.st[u+1] = "called" /\ s.pend[u+1].k \in {"up_lock", "upgrade"} /\ s.pend[u+1].o = s.pend[t+1].o
 
 ProgIdx(pid) == CHOOSE i \in 1..Len(ProgsIn) : ProgsIn[i].id = pid
 Tasks(s) == 0..(s.n - 1)
